@@ -31,12 +31,12 @@ pub fn spec(id: &str) -> Option<PropSpec> {
     Some(match id {
         "C01" => PropSpec {
             id: "C01",
-            batches: vec![b("bdd", 60_000, 3_000_000, true), b("bddbig", 0, 200, false)],
+            batches: vec![b("bdd", 60_000, 3_000_000, true), b("bddmid", 15_000, 600_000, true), b("bddbig", 0, 200, false)],
             rule: "one case = one seeded run: a generated history of 10-300 builder operations by 1-4 logical callers on one RobddBuilder (random order, cache kind, capacities, fault rates, placement). Distinct = distinct event-log hash (the log contains every result's truth table and raw node address and every fault fired). Non-trivial = at least one non-constant result AND at least one fault fired or table growth / displacement / lossy-cache overwrite happened.",
             states_measure: "distinct truth tables (Boolean functions over <= 7 variables) produced as results",
             probe_prefixes: &["Ite", "BddIte", "BddCond", "BddGet", "Table", "Lru"],
             assumptions: &[
-                "functions over at most 7 variables (128-bit truth-table oracle)",
+                "bdd world: functions over at most 7 variables (128-bit truth-table oracle); bddmid world: 8-27 variables judged on a sampled sub-cube of 512 points (7 free variables x 4 base assignments), condition/exists/compose only on free variables",
                 "compose is judged against its documented definition exists v.((v<=>g) & f)",
                 "seeded sampling, not exhaustive",
             ],
@@ -45,7 +45,7 @@ pub fn spec(id: &str) -> Option<PropSpec> {
         },
         "C02" => PropSpec {
             id: "C02",
-            batches: vec![b("table", 40_000, 2_000_000, false), b("bdd", 50_000, 2_000_000, true), b("bddbig", 16, 600, false)],
+            batches: vec![b("table", 40_000, 2_000_000, false), b("bdd", 50_000, 2_000_000, true), b("bddmid", 10_000, 400_000, true), b("bddbig", 16, 600, false)],
             rule: "bdd world: as C01, plus canonicity map, node-shape checks, sub-diagram canonicity, end-of-run re-lookup of every live node; table world: one case = a history of get_or_insert/grow/get_by_hash/iter calls on the real robin-hood table with simulator-chosen hash values (uniform, clustered at slot 0, at the last slots, all equal, pointer-like), capacities 1..64 and the shipped 131072 (>= 91751 keys). Distinct = distinct event-log hash. Non-trivial: bdd as C01; table = at least 2 distinct keys stored.",
             states_measure: "distinct truth tables produced (bdd world) / distinct final key counts (table world)",
             probe_prefixes: &["Table", "BddGet", "BddIte", "BddCond", "Ite"],
@@ -60,7 +60,7 @@ pub fn spec(id: &str) -> Option<PropSpec> {
         },
         "C16" => PropSpec {
             id: "C16",
-            batches: vec![b("lru", 60_000, 3_000_000, false), b("bdd", 30_000, 1_500_000, true), b("sdd", 30_000, 1_500_000, true), b("semhash", 8_000, 400_000, true)],
+            batches: vec![b("lru", 60_000, 3_000_000, false), b("bdd", 30_000, 1_500_000, true), b("bddmid", 8_000, 300_000, true), b("sdd", 30_000, 1_500_000, true), b("semhash", 8_000, 400_000, true)],
             rule: "lru world: one case = an insert/get history on the real util::lru::Lru with adversarial colliding hashes, capacities 2^0..2^5 and forced growth; bdd world: the same history is executed on the builder under test (lossy cache, tiny capacities, forgetting/growth faults) and on a fault-free twin that caches every application; every result must have the same canonical structural signature; sdd world: same with apply-/ite-cache forgetting against a fault-free twin (compressed and uncompressed); semhash world: the hash-identified SDD builder with its product-hash apply cache forgetting against a fault-free twin (same function). Distinct = distinct event-log hash. Non-trivial: lru = at least one hit and two keys; bdd = non-constant result and a fault/knob effect.",
             states_measure: "distinct truth tables produced (bdd) / distinct hit counts (lru)",
             probe_prefixes: &["Lru", "BddIteCacheHit", "Ite"],
